@@ -60,7 +60,7 @@ def st_case(draw, tier):
         reqs = draw(
             st.lists(
                 st.tuples(
-                    st.integers(0, nengines - 1), st.sampled_from(["name", "name", "name", "leaf", "mat", "reseed"]), st.sampled_from(PREFIXES)
+                    st.integers(0, nengines - 1), st.sampled_from(["name", "name", "name", "leaf", "mat", "reseed", "idleaf"]), st.sampled_from(PREFIXES)
                 ),
                 min_size=1,
                 max_size=4,
@@ -199,6 +199,19 @@ def request(engine, kind, what, prefix):
         return None
     if what == "name":
         return engine.get_relation_name(prefix)
+    if what == "idleaf":
+        # an unnamed leaf with no columns and exactly one row (a join identity) is still a new leaf that needs a name
+        if kind == "it":
+            leaf = engine.make_leaf(set(), iteration.RowSequence([{}]), name_prefix=prefix)
+        else:
+            import sqlalchemy as sa
+
+            t = sa.table("t", sa.column("a"))
+            leaf = engine.make_leaf(set(), sql.Payload(t), min_rows=1, max_rows=1, name_prefix=prefix)
+        for n in lib_nodes(leaf):
+            if isinstance(n, LeafRelation):
+                return n.name
+        raise AssertionError("no leaf")
     if kind == "it":
         payload = iteration.RowSequence([{A: 1}, {A: 2}])
         leaf = engine.make_leaf({A}, payload, name_prefix=prefix) if what == "leaf" else engine.make_leaf({A}, payload, name="fixed")
